@@ -8,7 +8,10 @@ stdin : {"groups": [GROUP]}
             "chain": [prefixes passed to successive .with_prefix calls], "degree": int?}
          | {"kind": "comp", ..., "left": MODEL, "right": MODEL, "via": "ctor"|"add"}
   VAR    = {"values": [hex floats | ints], "unit": [[unit name, power], ...], "dtype": "float64|float32|int64",
-            "dim": "x" | null}
+            "dim": "x" | null}                       0-d (dim null) or 1-d in the given order
+         | {..., "dims": [d0, d1], "shape": [n0, n1], "transposed": bool}
+                                                     2-d, values in logical row-major order; transposed: the
+                                                     variable is a non-contiguous view (memory order d1, d0)
 stdout: 'RESULT <json>': per group the operands as stored (exact rationals, unit multiplier and base powers)
         and the result per element (exact) or the exception class.
 """
@@ -36,13 +39,20 @@ def mk_var(spec):
     vals = [float.fromhex(v) if isinstance(v, str) else v for v in spec['values']]
     unit = mk_unit(spec['unit'])
     dt = spec['dtype']
+    if spec.get('dims'):
+        dims, shape = list(spec['dims']), list(spec['shape'])
+        arr = np.array(vals).astype(dt).reshape(shape)
+        if spec.get('transposed'):
+            base = sc.array(dims=dims[::-1], values=np.ascontiguousarray(arr.T), unit=unit, dtype=dt)
+            return base.transpose(dims)
+        return sc.array(dims=dims, values=arr, unit=unit, dtype=dt)
     if spec.get('dim') is None:
         return sc.scalar(np.array(vals[0]).astype(dt)[()], unit=unit, dtype=dt)
     return sc.array(dims=[spec['dim']], values=np.array(vals).astype(dt), unit=unit, dtype=dt)
 
 
 def stored(var):
-    return {'unit': unit_info(var.unit), 'dtype': str(var.dtype), 'dims': list(var.dims),
+    return {'unit': unit_info(var.unit), 'dtype': str(var.dtype), 'dims': list(var.dims), 'shape': list(var.shape),
             'values': [exact(x) for x in np.asarray(var.values).reshape(-1)]}
 
 
